@@ -32,7 +32,7 @@ def extreme_values(rng, tier):
     vals += [[x] for x in EXTREME_NUMS[:8]] + [{"a": x} for x in EXTREME_NUMS[:8]]
     vals += [deep(150, 1, "list"), deep(150, "x", "dict"), deep(80, 10 ** 400, "list")]
     big = tier != "quick"
-    vals += [list(range(100000 if big else 8000)), [0.5] * (5000 if big else 800), {str(i): i for i in range(5000 if big else 800)},
+    vals += [list(range(12000 if big else 8000)), [0.5] * (5000 if big else 800), {str(i): i for i in range(5000 if big else 800)},
              [[i] for i in range(3000 if big else 300)], [{"a": i} for i in range(2000 if big else 200)], [True, False] * 500, [None] * 500]
     vals += [{k: 1 for k in ODD_KEYS}, {k: {k: None} for k in ODD_KEYS[:6]}]
     vals += [True, False, None, [], {}, [[]], [{}], {"": {}}]
@@ -141,6 +141,8 @@ def run(tier, seed, replay=None):
             res.count(r + "|" + repr(v)[:80], nontrivial=True)
             if kind in ("ok", "ValidationError", "TypeError"):
                 stats[kind] += 1
+            elif kind == "Timeout":
+                stats["slow_calls"] = stats.get("slow_calls", 0) + 1       # the harness's own 60 s bound, not an exception of the library
             else:
                 stats["other"][kind] = stats["other"].get(kind, 0) + 1
                 fid = None
@@ -198,6 +200,8 @@ def run(tier, seed, replay=None):
             stats["calls"] += 1
             if kind in ("ok", "ValidationError", "TypeError"):
                 stats[kind] += 1
+            elif kind == "Timeout":
+                stats["slow_calls"] = stats.get("slow_calls", 0) + 1       # the harness's own 60 s bound (quadratic uniqueItems): termination is the theorem's
             elif not (kind == "OverflowError" and k8(repr(e) + repr(s), v)):
                 res.violation({"property": "C10", "kind": "oracle", "schema": s if len(repr(s)) < 3000 else repr(s)[:300], "value": repr(v)[:200],
                                "what": "calling the parsed element raised %s (%s)" % (kind, detail)})
